@@ -2,6 +2,7 @@
 import stateworld
 
 PROP_ID = "C05"
+WARMUP_RUNS = 150   # chunks run in fresh forks: kernel signatures must be compiled in the parent
 OWN_PREFIX = "c05."
 
 
@@ -26,3 +27,7 @@ def gen_config(rng, tier):
 # reach guard: a full-size batch in which one of these never fired means the workload or the
 # harness has rotted (exit 2, never a pass)
 REQUIRED_REACH = ['coin_force', 'rejected_op', 'view_operand', 'pivot:standby_stabilizer', 'pivot:standby_destabilizer', 'masked_update_on_mixed_state', 'mixed_state_created', 'config:compiled']
+
+
+def warm_extra():
+    stateworld.warm_layouts()
